@@ -1,10 +1,12 @@
 package props
 
 import (
+	"fmt"
 	"go/ast"
 	"go/constant"
 	"go/token"
 	"go/types"
+	"os"
 	"strings"
 
 	"pdfverif/internal/core"
@@ -814,7 +816,15 @@ func ruleRefLimits(c *core.Ctx, rule string) {
 		o.Require(core.Mentions(nr.Info(), nr.Decl.Body, mx), "NewReference does not test maxXRefSize")
 		// every non-test call of NewReference in package pdf from a function that parses input is dominated by comparisons with the same constants
 		n := 0
-		for _, fn := range c.Prog.Funcs(pkg) {
+		for _, raw := range c.Prog.Funcs(pkg) {
+			// with unexported helpers folded in: the range test may sit in a predicate
+			// (isValidReference) and the call in a constructor helper (makeReference)
+			fn := raw
+			if readPathRefFuncs[raw.Key] {
+				if in := c.Prog.FuncOpt("pdf", strings.TrimPrefix(raw.Key, "pdf.")); in != nil {
+					fn = in
+				}
+			}
 			calls := core.CallsTo(fn.Info(), fn.Decl, true, "pdf.NewReference")
 			if len(calls) == 0 {
 				continue
@@ -867,6 +877,33 @@ func ruleRefLimits(c *core.Ctx, rule string) {
 						return op == wantOp
 					})
 					if !ok {
+						// a range test made by a predicate of the package that is not followed
+						// (isValidReference(a, b)): not decided here
+						viaPredicate := g.GuardedBy(v, func(a core.Atom) bool {
+							pc, isCall := ast.Unparen(a.Expr).(*ast.CallExpr)
+							if !isCall || a.Tag != nil {
+								return false
+							}
+							f := core.Callee(fn.Info(), pc)
+							if f == nil || f.Pkg() == nil || f.Pkg() != fn.Obj.Pkg() {
+								return false
+							}
+							for _, pa := range pc.Args {
+								if root != nil && core.Mentions(fn.Info(), pa, root) {
+									return true
+								}
+							}
+							return false
+						})
+						if os.Getenv("PDFVERIF_DEBUG_C01") != "" {
+							for _, a := range g.DominatingAtoms(v) {
+								fmt.Fprintf(os.Stderr, "atom neg=%v %T %s\n", a.Neg, a.Expr, core.ExprStr(a.Expr))
+							}
+						}
+						if viaPredicate {
+							o.Unrec("%s: argument %d (%s) of NewReference is tested by a predicate of the package that is not followed", c.Prog.Pos(call.Pos()), i, core.ExprStr(arg))
+							continue
+						}
 						o.FailAt(fn.Site(call, ""), "argument %d (%s) of NewReference is not dominated by the exact comparison '%s %s %s' (the legal range must be accepted completely and nothing beyond it)", i, core.ExprStr(arg), core.ExprStr(arg), wantOp, lim.Name())
 					}
 				}
